@@ -93,6 +93,8 @@ func generatedPrograms() []string {
 		"set t to transform debug 'x' return tail match + 'y' <= 'z' == true != false end\nreplace all 'a' with t",
 		"find all line start whole word word end line end file start file end word start whole line whole file",
 		"find all not line start not word end not 'x' not any not digit not in upper, lower",
+		// names made of non-ASCII letters
+		"find all (digit) = \xc3\xb1 (\xc3\xb1) maybe \xc3\xb1", "set \xc3\xa9lan to pattern 'a' or 'b'\nfind all \xc3\xa9lan 'b' = a\xc3\xb1o a\xc3\xb1o",
 		// sources whose last command is a definition: the closing `end` (or the pattern body) is the last token
 		"find all 'a'\nset t to transform return match end", "find all 'a'\nset p to pattern 'b' begin return true end",
 		"set f to function if true then return 1 else return 2 end end", "find all 'a' set q to pattern 'b' or 'c'", "replace all 'a' with 'b' set m to matches find all 'c'",
@@ -139,8 +141,9 @@ func vtokens(src string) []string {
 				j++
 			}
 			j++
-		case c >= 'a' && c <= 'z' || c >= 'A' && c <= 'Z' || c >= '0' && c <= '9':
-			for j < len(src) && (src[j] >= 'a' && src[j] <= 'z' || src[j] >= 'A' && src[j] <= 'Z' || src[j] >= '0' && src[j] <= '9') {
+		case c >= 'a' && c <= 'z' || c >= 'A' && c <= 'Z' || c >= '0' && c <= '9' || c >= 0x80:
+			// a word: letters (any byte >= 0x80 belongs to a non-ASCII letter) and digits
+			for j < len(src) && (src[j] >= 'a' && src[j] <= 'z' || src[j] >= 'A' && src[j] <= 'Z' || src[j] >= '0' && src[j] <= '9' || src[j] >= 0x80) {
 				j++
 			}
 		case (c == '=' || c == '!' || c == '<' || c == '>' || c == ':') && j < len(src) && src[j] == '=':
